@@ -9,7 +9,7 @@ Definition w_hdr : list N :=
   [80;79;83;84;32;47;32;72;84;84;80;47;49;46;49;13;10;67;111;110;116;101;110;116;45;76;101;110;103;116;104;58;32;54;13;10;13;10].
 Definition w_parse (d : list N) : option facts :=
   if bytes_eqb d w_hdr then Some (FOk true false (BFixed 6)) else None.
-Definition w_cfg : cfg := mkCfg HSync DAsync FSync true 65536 65536 1000.
+Definition w_cfg : cfg := mkCfg HSync DAsync FSync true 65536 65536 1000 true.
 (* headers; "ab" (data_received pending); "cdef" (buffered); body timeout; the handler continues.
    Before fix bd9b133 the real server produced H D"ab" C X D"cdef". *)
 Definition w_events : list event := [EFeed w_hdr; EFeed [97;98]; EFeed [99;100;101;102]; ETimeout; EAct].
